@@ -221,8 +221,9 @@ class XonshParserGenerator(PythonParserGenerator):
                 self.print("self.call_invalid_rules = False")
                 self.cleanup_statements.append("self.call_invalid_rules = _prev_call_invalid")
 
-            # special case to reduce generated code size
-            if simple := self.callmakervisitor.rhs_helper(node.rhs):
+            # special case to reduce generated code size; a rule with clean-up statements needs the
+            # long form, whose returns go through add_return (and whose statement is popped below)
+            if not self.cleanup_statements and (simple := self.callmakervisitor.rhs_helper(node.rhs)):
                 _, call = simple
                 self.print(f"return {call}")
                 return
